@@ -142,8 +142,14 @@ func (c *InformerTrackingCache) GetInformer(ctx context.Context, obj client.Obje
 
 	c.mx.Lock()
 	defer c.mx.Unlock()
-	c.active[gvk] = true
-	return c.Cache.GetInformer(ctx, obj, opts...)
+
+	// Only consider the informer active if we could actually get it. If we
+	// couldn't, a watch that needs it must try to start it again.
+	i, err := c.Cache.GetInformer(ctx, obj, opts...)
+	if err == nil {
+		c.active[gvk] = true
+	}
+	return i, err
 }
 
 // GetInformerForKind is similar to GetInformer, except that it takes a
@@ -160,8 +166,13 @@ func (c *InformerTrackingCache) GetInformerForKind(ctx context.Context, gvk sche
 
 	c.mx.Lock()
 	defer c.mx.Unlock()
-	c.active[gvk] = true
-	return c.Cache.GetInformerForKind(ctx, gvk, opts...)
+
+	// Only consider the informer active if we could actually get it.
+	i, err := c.Cache.GetInformerForKind(ctx, gvk, opts...)
+	if err == nil {
+		c.active[gvk] = true
+	}
+	return i, err
 }
 
 // RemoveInformer removes an informer entry and stops it if it was running.
